@@ -15,6 +15,14 @@ for d, _, fs in os.walk(os.path.join(repo, "src/primaite")):
             for n in ast.walk(t):
                 if isinstance(n, (ast.FunctionDef, ast.AsyncFunctionDef)):
                     names.add(n.name)
+            # module-level and class-level assigned names (constants, registries)
+            for scope in [t] + [c for c in ast.walk(t) if isinstance(c, ast.ClassDef)]:
+                for st in scope.body:
+                    tg = st.targets if isinstance(st, ast.Assign) else ([st.target] if isinstance(st, (ast.AnnAssign, ast.AugAssign)) else [])
+                    for x in tg:
+                        for y in ast.walk(x):
+                            if isinstance(y, ast.Name):
+                                names.add(y.id)
 head = subprocess.check_output(["git", "-C", repo, "rev-parse", "--short", "HEAD"], text=True).strip()
 json.dump({"reference": head, "functions": sorted(names)}, open(os.path.join(ROOT, "sa", "vocabulary.json"), "w"), indent=0)
 print(len(names), "names frozen at", head)
